@@ -93,6 +93,7 @@ func metaOps() []op {
 	return []op{
 		{"tx k=1", 0, func() gen.Stmt { return call("set_tx_meta", gen.Str("k"), gen.Num("1")) }},
 		{"tx k=@a", 0, func() gen.Stmt { return call("set_tx_meta", gen.Str("k"), gen.Acct("a")) }},
+		{"tx pct=\"15% of gross\"", 0, func() gen.Stmt { return call("set_tx_meta", gen.Str("pct %d"), gen.Str("15% of gross %s")) }},
 		{"tx j=[USD 1]", 0, func() gen.Stmt { return call("set_tx_meta", gen.Str("j"), gen.Mon("USD", "1")) }},
 		{"am a.k=\"v\"", 0, func() gen.Stmt { return call("set_account_meta", gen.Acct("a"), gen.Str("k"), gen.Str("v")) }},
 		{"am a.k=2", 0, func() gen.Stmt { return call("set_account_meta", gen.Acct("a"), gen.Str("k"), gen.Num("2")) }},
